@@ -1,6 +1,6 @@
 """C01 — encode/decode round trip reproduces the geometry exactly (modulo quantization)."""
 from vlib.engine import Case
-from . import e2e, e2etags, geomgen as G, topo2
+from . import e2e, e2etags, geomgen as G, topo2, seqenc_cases
 
 ID = "C01"
 LEVEL = "proof"
@@ -155,6 +155,8 @@ def generate(rng, tier):
             g = G.Geom(False, 0, [], [G.Attr(t, d, c, nz, uid, 0, None, b"") for (t, d, c, nz, uid) in specs])
             toks, info = options(rng, g, method=method, quant_all=True)
             cases.append(case(g, toks, info, ("gen:special-topology",)))
+    # encoder model of the sequential methods vs. the C++ encoders, byte for byte (DracoModel/SeqEncoder.lean)
+    cases += seqenc_cases.cases(rng, 600 if tier == "thorough" else 150, 2000 if tier == "thorough" else 300)
     return cases
 
 
